@@ -302,6 +302,13 @@ func c19RecordAfterSend(r *R) {
 }
 
 func c19Rejection(r *R) {
+	// the logs are written from these places only; the two recording helpers run only
+	// where the caller also answers the initiator with the result (C04.1/C04.6/C04.7
+	// decide that the reply carries it), so a responder never records a result it did not send
+	r.onlyCallers("C19.6", "(*channels.Channels).NewVoucherResult", 4, "(*impl.manager).SendVoucherResult", "(*impl.manager).recordRejectedValidationEvents", "(*impl.manager).recordAcceptedValidationEvents", "(*impl.manager).OnResponseReceived")
+	r.onlyCallers("C19.6", "(*channels.Channels).NewVoucher", 2, "(*impl.manager).SendVoucher", "(*impl.manager).processUpdateVoucher")
+	r.onlyCallers("C19.6", "(*impl.manager).recordAcceptedValidationEvents", 3, "(*impl.manager).acceptRequest", "(*impl.manager).restartRequest", "(*impl.manager).processValidationUpdate")
+	r.onlyCallers("C19.6", "(*impl.manager).recordRejectedValidationEvents", 2, "(*impl.manager).restartRequest", "(*impl.manager).processValidationUpdate")
 	fn := r.fn("C19.6", "impl", "manager", "recordRejectedValidationEvents")
 	if fn != nil {
 		n := 0
